@@ -115,13 +115,35 @@ def mk_teams(model, teams: List[List[List[float]]], names=False):
     return out
 
 
+class _IntSub(int):
+    """an int in every respect (isinstance, arithmetic, ordering, hashing) - e.g. what enum.IntEnum members or numpy-free domain types are"""
+
+
+class _FloatSub(float):
+    pass
+
+
+def _wrap_number(v, how):
+    if isinstance(v, bool):
+        return v
+    if how == "int-subclass" and isinstance(v, int):
+        return _IntSub(v)
+    if how == "float-subclass" and isinstance(v, float):
+        return _FloatSub(v)
+    if how == "both":
+        return _IntSub(v) if isinstance(v, int) else _FloatSub(v) if isinstance(v, float) else v
+    return v
+
+
 def call_kwargs(call: Dict[str, Any]) -> Dict[str, Any]:
-    """call keys (all optional): ranks, scores, tau, limit_sigma  (absent or None == omitted)."""
+    """call keys (all optional): ranks, scores, tau, limit_sigma  (absent or None == omitted);
+    'number_types' (None | 'int-subclass' | 'float-subclass' | 'both'): rank / score values are passed as instances of subclasses of int / float."""
     kw = {}
+    how = call.get("number_types")
     for k in ("ranks", "scores", "tau", "limit_sigma"):
         if call.get(k) is not None:
             v = call[k]
-            kw[k] = list(v) if isinstance(v, list) else v
+            kw[k] = [(_wrap_number(x, how) if how else x) for x in v] if isinstance(v, list) else v
     return kw
 
 
